@@ -188,7 +188,7 @@ def run(ctx):
     try:
         if quick:
             gens = [({'N': 3, 'MaxMut': 1, 'MaxPark': 1, 'MaxSend': 1, 'Shapes': '1, 3'}, 0, 'alt'),
-                    ({'N': 5, 'MaxMut': 2, 'MaxPark': 2, 'MaxSend': 2, 'Shapes': '1, 2, 3, 4'}, 400, 'both')]
+                    ({'N': 5, 'MaxMut': 2, 'MaxPark': 2, 'MaxSend': 2, 'Shapes': '1, 2, 3, 4'}, 150, 'both')]
         else:
             gens = [({'N': 3, 'MaxMut': 1, 'MaxPark': 1, 'MaxSend': 1, 'Shapes': '1, 2, 3, 4'}, 0, 'both'),
                     ({'N': 2, 'MaxMut': 2, 'MaxPark': 2, 'MaxSend': 1, 'Shapes': '1, 3'}, 0, 'both'),
